@@ -42,6 +42,8 @@ def main():
     baseline = True
     scratch = False
     target_only = False
+    report_override = None
+    shard = None
     i = 0
     while i < len(args):
         if args[i] == "--only":
@@ -56,6 +58,10 @@ def main():
             scratch = True; i += 1
         elif args[i] == "--target-only":
             target_only = True; i += 1
+        elif args[i] == "--report":
+            report_override = args[i + 1]; i += 2
+        elif args[i] == "--shard":
+            shard = tuple(int(x) for x in args[i + 1].split("/")); i += 2
         else:
             print(__doc__); sys.exit(2)
     manifest = json.load(open(f"{VERIF}/MANIFEST.json"))
@@ -63,6 +69,8 @@ def main():
     patches = sorted(glob.glob(f"{VERIF}/seeded/*/patch.diff")) + sorted(glob.glob(f"{VERIF}/mutants/*.patch"))
     if only:
         patches = [p for p in patches if only in p]
+    if shard:
+        patches = [p for k, p in enumerate(patches) if k % shard[1] == shard[0]]
     global REPO
     run_cmd = "./run check {c} {tier}"
     run_cwd = VERIF
@@ -84,7 +92,7 @@ def main():
         print("scratch build:", out.strip().splitlines()[-1] if out.strip() else rc)
     if not clean():
         print("refusing: working tree is not clean"); sys.exit(2)
-    report_path = f"{VERIF}/evidence/mutation_audit.json"
+    report_path = report_override or f"{VERIF}/evidence/mutation_audit.json"
     scratch_root = os.path.dirname(REPO) if scratch else None
     report = {}
     if os.path.exists(report_path) and (only or checks or target_only):
@@ -155,7 +163,8 @@ def main():
             sh(f"git -C /repo worktree remove --force {REPO}")
             sh(f"rm -rf {scratch_root}")
     existing = set(os.path.basename(os.path.dirname(p)) if p.endswith("patch.diff") else os.path.basename(p)[:-6] for p in (sorted(glob.glob(f"{VERIF}/seeded/*/patch.diff")) + sorted(glob.glob(f"{VERIF}/mutants/*.patch"))))
-    report = {k: v for k, v in report.items() if k in existing}
+    if not shard:
+        report = {k: v for k, v in report.items() if k in existing}
     json.dump({"generated_by": "tools/audit.py", "tier": tier, "patches": report}, open(report_path, "w"), indent=1)
     missed = [n for n, e in report.items() if e.get("target_detected") is False]
     print(f"audited {len(report)} patches; target property missed for: {missed}")
